@@ -69,6 +69,16 @@ func init() {
 		if rs, ok := c["real"].([]any); ok {
 			lc.Reps = len(rs)
 		}
+		if ns, ok := c["nocheck"].([]any); ok {
+			for _, n := range ns {
+				lc.DropCheck = append(lc.DropCheck, unhx(n))
+			}
+		}
+		if ns, ok := c["dropcall"].([]any); ok {
+			for _, n := range ns {
+				lc.DropCall = append(lc.DropCall, unhx(n))
+			}
+		}
 		out := loadV1(lc)
 		carryOver(out, c)
 		e.emit(out)
